@@ -13,7 +13,7 @@ import StraxModel.Model.Chunk
     * `DownChunkingPlugin._fix_output`                                   → `fixOutputDown`
     * `continuity_check` as used by `Context.get_iter` on the target     → `targetStream`
     * `Plugin.fix_dtype` (required time fields, dict declarations)       → `fixDtype`
-    * what the processors do with savers when an output is rejected      → `process`
+    * what the processors do with savers when an output is rejected      → `process` (single-thread), `processEager`
 
   Import-free apart from `Model/Chunk.lean` (`mkChunk`, `lastEndMax`, `continuityCheck`, `contStep`).
 -/
@@ -565,5 +565,25 @@ def process (check : σ → α → Except Err σ) : σ → List (Except Err α) 
     | .ok st' =>
       let (sv', out, e) := process check st' rest sv
       (sv', a :: out, e)
+
+/-- consumer-side continuity check on bare `[start, stop)` pairs (the target's `continuity_check` in
+`get_iter`, reduced to what it compares for an ordinary run) -/
+def contCheck (last : Option Int) (c : Int × Int) : Except Err (Option Int) :=
+  match last with
+  | some e => if c.1 = e then .ok (some c.2) else .error .valueError
+  | none => .ok (some c.2)
+
+/-- the EAGER threaded pipeline with a consumer slower than the pipeline: the saver runs ahead of
+the consumer — it sees the whole stream and its regular end (or the producer's exception) before
+the consumer has checked anything; the consumer's own check then runs on the same stream.
+Returns the saver and the error the caller gets (finding F3 / D21). -/
+def processEager (check : σ → α → Except Err σ) (st : σ) (outs : List (Except Err α)) (sv : Saver α) :
+    Saver α × Option Err :=
+  match outs.find? (fun o => !o.toBool) with
+  | some (.error e) => (sv.closeExc, some e)
+  | _ =>
+    let good := outs.filterMap fun o => match o with | .ok a => some a | .error _ => none
+    let sv := (good.foldl Saver.save sv).close
+    (sv, (process check st outs ({} : Saver α)).2.2)
 
 end Strax.Contract
